@@ -230,6 +230,9 @@ def run_seeded_one(meta, repo=None):
                     res["rules"].append(f.rule)
                     res["findings"].append("%s: %s" % (k, f.message[:240]))
         res["rules"] = sorted(set(res["rules"]))
+        if meta.get("kind") == "preserve":
+            res["status"] = "silent" if not res["rules"] else "false-alarm"
+            return res
         own = [r for r in res["rules"] if r.startswith(meta.get("property", "?") + ".")]
         res["status"] = "caught" if own else ("caught-by-other-property" if res["rules"] else "missed")
         return res
